@@ -252,6 +252,25 @@ func c20Case(i int, raw []byte) Result {
 			return mk("admitted-foreign", fmt.Sprintf("%s-as-%s", c.Kind, c.Ext), fmt.Sprintf("%s bytes named *.%s were opened instead of refused (text %q)", c.Kind, ext, txt), txt)
 		}
 	}
+	// the decision belongs to the bytes and the name, not to the call: asked again on ONE extractor (PageCount, then Text,
+	// then Text of an extractor derived from it) the answer is the same each time
+	if c.Expected.Open == "opens" || c.Expected.Open == "refused" {
+		e := tabula.Open(path)
+		_, e1 := e.PageCount()
+		_, _, e2 := e.Text()
+		t3, _, e3 := e.ExcludeHeaders().Text()
+		e.Close()
+		r.Evals += 3
+		for k, err := range []error{e1, e2, e3} {
+			step := []string{"PageCount()", "Text() after PageCount() on the same extractor", "Text() of an extractor derived after both"}[k]
+			if c.Expected.Open == "refused" && err == nil {
+				return mk("admitted-foreign-again", fmt.Sprintf("%s-as-%s:step%d", c.Kind, c.Ext, k+1), fmt.Sprintf("%s bytes named *.%s: %s was not refused (text %q)", c.Kind, ext, step, t3), step)
+			}
+			if c.Expected.Open == "opens" && err != nil {
+				return mk("refused-own-again", fmt.Sprintf("%s:step%d", c.Kind, k+1), fmt.Sprintf("a valid %s document named *.%s: %s failed: %v", c.Kind, ext, step, err), step)
+			}
+		}
+	}
 	return r
 }
 
